@@ -25,6 +25,8 @@ type Clause struct {
 	Tags  []string // property ids
 	Where string   // spec file:line
 	Uses  []string // lemmas / axioms made available for this clause only ("... @uses a, b")
+	Ghost bool     // ("... @ghost") a postcondition of a function-type contract about ghost state only: the ghost step is
+	// performed by the protocol, so implementers assume it at exit (after the ghost is advanced) instead of proving it
 	Opt   string   // optional postcondition group ("... @opt name"): assumed only by callers that declare "wants name"
 }
 
@@ -72,6 +74,9 @@ type Unit struct {
 	Have     []Clause          // intermediate facts over the locals at a return, proved in order and then assumed
 	Wants    map[string]bool   // optional postcondition groups of callees this unit asks for
 	Witness  map[string]string // existsT variable -> spec expression (over locals at return) that instantiates it in proofs
+	Invariant []Clause // escaping closure with private captured state: holds whenever the closure is not running (assumed at
+	// entry, proved at exit and where the closure is created)
+	Yields    []Clause // definitions of ghost functions of this closure's function value "self" (assumed at creation and at entry)
 	Unpublished map[string]bool // T-typed parameters / receiver that may be half-built (allocated by the caller, not yet returned)
 	UsesDef  []string // lemmas / axioms made available only to the definedness obligations of this unit
 	Trusted  []Clause // postconditions assumed at call sites but not proved from the body (paper lemmas); always reported
@@ -203,7 +208,7 @@ func (p *Program) collectLits(u *Unit, body ast.Node) {
 	})
 }
 
-var clauseRe = regexp.MustCompile(`^(requires|ensures|modifies|loop|takes|public|assumed|bounded|returns|ghost|props|domain|defined|source|target|implements|uses|trusted|witness|wants|have|usesdef|unpublished)\b(\[[A-Z0-9,]+\])?\s*(.*)$`)
+var clauseRe = regexp.MustCompile(`^(requires|ensures|modifies|loop|takes|public|assumed|bounded|returns|ghost|props|domain|defined|source|target|implements|uses|trusted|witness|wants|have|usesdef|unpublished|invariant|yields)\b(\[[A-Z0-9,]+\])?\s*(.*)$`)
 
 func (p *Program) specErr(where, msg string) {
 	p.SpecErr = append(p.SpecErr, where+": "+msg)
@@ -241,7 +246,7 @@ func (p *Program) parseSpecs(pkg *packages.Package) {
 			first := strings.Fields(t)[0]
 			first = strings.SplitN(first, "[", 2)[0]
 			switch first {
-			case "func", "closure", "abstract", "requires", "ensures", "modifies", "loop", "takes", "public", "assumed", "bounded", "define", "axiom", "returns", "ghost", "props", "domain", "defined", "source", "target", "implements", "uses", "lemma", "predicate", "trusted", "witness", "wants", "have", "usesdef", "induct", "unpublished":
+			case "func", "closure", "abstract", "requires", "ensures", "modifies", "loop", "takes", "public", "assumed", "bounded", "define", "axiom", "returns", "ghost", "props", "domain", "defined", "source", "target", "implements", "uses", "lemma", "predicate", "trusted", "witness", "wants", "have", "usesdef", "induct", "unpublished", "invariant", "yields":
 				joined = append(joined, line{t, l.where})
 			default:
 				if len(joined) == 0 {
@@ -357,6 +362,11 @@ func (p *Program) parseSpecs(pkg *packages.Package) {
 				mk := func(src string) (Clause, bool) {
 					var uses []string
 					opt := ""
+					ghost := false
+					if i := strings.Index(src, "@ghost"); i >= 0 {
+						ghost = true
+						src = strings.TrimSpace(src[:i]) + " " + strings.TrimSpace(src[i+6:])
+					}
 					if i := strings.Index(src, "@opt"); i >= 0 {
 						rest := strings.TrimSpace(src[i+4:])
 						fs := strings.Fields(rest)
@@ -375,6 +385,7 @@ func (p *Program) parseSpecs(pkg *packages.Package) {
 					c, ok := mk0(src)
 					c.Uses = uses
 					c.Opt = opt
+					c.Ghost = ghost
 					return c, ok
 				}
 				_ = mk
@@ -418,6 +429,14 @@ func (p *Program) parseSpecs(pkg *packages.Package) {
 							cur.Witness = map[string]string{}
 						}
 						cur.Witness[strings.TrimSpace(fs[0])] = strings.TrimSpace(fs[1])
+					}
+				case "invariant":
+					if c, ok := mk(rest); ok {
+						cur.Invariant = append(cur.Invariant, c)
+					}
+				case "yields":
+					if c, ok := mk(rest); ok {
+						cur.Yields = append(cur.Yields, c)
 					}
 				case "unpublished":
 					if cur.Unpublished == nil {
